@@ -320,6 +320,16 @@ theorem enum_accepts_counterexample : ¬ enum_accepts_full := by
   revert this
   decide
 
+/-- **Acceptance, partial**: every enum the spec gives a type to is accepted with that type,
+except when the fixed underlying type is unsigned and the first enumerator has no `=`. -/
+theorem enum_accepts_partial {fixed : Option IntTy} {items : List EnumItem} {t : IntTy}
+    (hw : ItemsWf items)
+    (hf : ∀ b, fixed = some b → ValidTy b ∧ (b.signed = true ∨ items.head? ≠ some .implicit))
+    (h : Abi.enumUnderlying fixed items = some t) : Layout.enumUnderlying fixed items = .ok t := by
+  cases fixed with
+  | none => exact enumUnderlying_nofix_complete hw h
+  | some b => exact enumUnderlying_fix_complete (hf b rfl).1 hw (hf b rfl).2 h
+
 /-! ## Nested types and member lookup -/
 
 /-- For every type whose (nested) definitions are well-formed, `sizeof`/`_Alignof`/flexibility
@@ -394,6 +404,11 @@ example : Layout.enumUnderlying none [.explicit 0x7fffffff tInt, .implicit] = .o
     Abi.enumUnderlying none [.explicit 0x7fffffff tInt, .implicit] = some tUInt := by decide
 example : ValidTy ⟨2, false⟩ ∧ ItemsWf [.explicit 65535 tInt] ∧
     Layout.enumUnderlying (some ⟨2, false⟩) [.explicit 65535 tInt] = .ok ⟨2, false⟩ := by decide
+-- enum_accepts_partial: `enum E : unsigned short { A = 65535 }`, `enum E : long { A, B = -1 }`
+example : ValidTy ⟨2, false⟩ ∧ ([EnumItem.explicit 65535 tInt].head? ≠ some .implicit) ∧
+    Abi.enumUnderlying (some ⟨2, false⟩) [.explicit 65535 tInt] = some ⟨2, false⟩ := by decide
+example : ValidTy tLong ∧ tLong.signed = true ∧ ItemsWf [.implicit, .explicit (2 ^ 64 - 1) tInt] ∧
+    Abi.enumUnderlying (some tLong) [.implicit, .explicit (2 ^ 64 - 1) tInt] = some tLong := by decide
 example : typehasint tInt (2 ^ 64 - 2 ^ 31) true = true ∧ typehasint tInt (2 ^ 64 - 2 ^ 31 - 1) true = false ∧
     typehasint tUInt (2 ^ 32) false = false := by decide
 
